@@ -41,6 +41,19 @@ def step (_ : Unit) (op impl : String) : Unit × DrvOut :=
         | [] => "FAIL empty implementation answer"
       ((), { model, spec })
     | _, _ => ((), { model := "bad-op" })
+  | ["hl", len, ipp, pagesS] =>
+    -- the same decision reached through the real HTTP handler (GET /v3/paths/list) on ONE API instance, several
+    -- requests in a row: every answer must be the requested slice of the WHOLE list (nothing a previous request
+    -- did may leak into the next one)
+    match len.toNat?, ipp.toNat?, (pagesS.splitOn ",").mapM String.toNat? with
+    | some len, some ipp, some pages =>
+      let items := List.range len
+      let pc := pageCount len ipp
+      let want := pages.map fun p => s!"{len}/{pc}/{fmtSpan (page items ipp p)}"
+      let model := " ".intercalate want
+      let spec := if words impl == want then "ok" else "FAIL a handler answer is not the requested page of the whole list (itemCount/pageCount/slice)"
+      ((), { model, spec })
+    | _, _, _ => ((), { model := "bad-op" })
   | _ => ((), { model := "bad-op" })
 
 def main (args : List String) : IO UInt32 := runDriver args () step
